@@ -415,6 +415,15 @@ func Mutations(s *Schema, d *Doc) []*Mutation {
 				l := ix.Dirs[host]
 				*l = append(*l, NewDir("zz"))
 			})
+			// the argument-less type-system directive @oneOf (every schema has it) used in an operation
+			add(RDirLocation, "type-system directive in an operation", false, "argument-less type-system directive @oneOf at "+loc, []int{host}, func(d *Doc, ix *Index) {
+				l := ix.Dirs[host]
+				*l = append(*l, NewDir("oneOf"))
+			})
+			add(RDirLocation, "type-system directive with an argument in an operation", false, "argument-less type-system directive @oneOf with an argument at "+loc, []int{host}, func(d *Doc, ix *Index) {
+				l := ix.Dirs[host]
+				*l = append(*l, NewDir("oneOf", NewArg("zz", Int(1))))
+			})
 			misplaced := 0
 			for _, name := range s.DirectiveNames() {
 				dd := s.S.Directives[name]
@@ -444,17 +453,42 @@ func Mutations(s *Schema, d *Doc) []*Mutation {
 				if !executable {
 					continue
 				}
+				argless := len(dd.Arguments) == 0
 				if !HasLocation(dd, c.Loc) {
-					if misplaced++; misplaced > 2 {
+					// at most two per host, but EVERY argument-less directive (a validator may stop looking at a directive
+					// once it knows that nothing can be required of it)
+					if misplaced++; misplaced > 2 && !argless {
 						continue
 					}
-					add(RDirLocation, "misplaced directive", false, "directive not allowed at "+loc, []int{host}, func(d *Doc, ix *Index) {
+					mclass := "directive not allowed at " + loc
+					if argless {
+						mclass = "argument-less directive not allowed at " + loc
+					}
+					add(RDirLocation, "misplaced directive", false, mclass, []int{host}, func(d *Doc, ix *Index) {
 						l := ix.Dirs[host]
 						*l = append(*l, freshDir(usage))
 					})
 					continue
 				}
 				present := hasDir(c.Dirs, name)
+				// (a fragment definition is removed by normalization before the argument rules run: one class for both variants there)
+				arglessClass := func(variant string) string {
+					if c.Loc == gast.LocationFragmentDefinition {
+						return "argument given to an argument-less directive on a fragment definition"
+					}
+					return "unknown argument (" + variant + ") on argument-less directive at " + loc
+				}
+				if argless && !present {
+					// an argument-less directive given an argument: a literal, an undefined variable
+					add(RArgNames, "argument on argument-less directive", false, arglessClass("literal"), []int{host}, func(d *Doc, ix *Index) {
+						l := ix.Dirs[host]
+						*l = append(*l, NewDir(name, NewArg("zz", Int(1))))
+					})
+					add(RArgNames, "argument with undefined variable on argument-less directive", false, arglessClass("undefined variable"), []int{host}, func(d *Doc, ix *Index) {
+						l := ix.Dirs[host]
+						*l = append(*l, NewDir(name, NewArg("zz", Var("undef"))))
+					})
+				}
 				if dd.IsRepeatable {
 					if !present {
 						add(RDirUnique, "repeatable directive twice (control)", true, "repeatable directive twice at "+loc, []int{host}, func(d *Doc, ix *Index) {
